@@ -93,8 +93,9 @@ def validatePrefixedDenom (denom : String) : Bool :=
 
 /-- Bank denom of the coin ICS-20 handles for an unprefixed denomination. -/
 def ibcDenom (cfg : Cfg) (unprefixed : String) : String :=
-  let (path, _) := parseDenomTrace unprefixed
-  if path == "" then unprefixed else cfg.voucherDenom unprefixed
+  let (path, base) := parseDenomTrace unprefixed
+  -- `DenomTrace.GetFullDenomPath` = path + "/" + base: a denomination that is all path gets a trailing slash
+  if path == "" then unprefixed else cfg.voucherDenom (path ++ "/" ++ base)
 
 /-- `transferkeeper.OnRecvPacket` behind `IBCModule.OnRecvPacket`. An error is an error ack. -/
 def ics20Recv (cfg : Cfg) (c : Ctx) (pkt : Packet) : Res Ctx :=
@@ -127,7 +128,7 @@ def ics20Recv (cfg : Cfg) (c : Ctx) (pkt : Packet) : Res Ctx :=
         pure { c with ext := ext }
     else
       -- token of the sending chain: mint a voucher
-      let voucher := cfg.voucherDenom (denomPrefix pkt.dstPort pkt.dstChan ++ d.denom)
+      let voucher := ibcDenom cfg (denomPrefix pkt.dstPort pkt.dstChan ++ d.denom)
       let c := c.mint cfg.transferModule voucher amt.toNat
       if c.ext.blocked receiver then .err "ics20:receiver-blocked"
       else c.send cfg.transferModule receiver voucher amt.toNat "ics20:send-voucher"
